@@ -16,9 +16,9 @@ META = {
         "(country, bban) whose full 100-pair set was enumerated"
     ),
     "assumptions": ["R-IBAN check digits = 98 - (bban+country+'00' letter-expanded) mod 97, computed digit-wise"],
-    "min_distinct": {"quick": 900, "thorough": 20000},
+    "min_distinct": {"quick": 1500, "thorough": 50000},
 }
-SIZES = {"quick": dict(rand=4), "thorough": dict(rand=170)}
+SIZES = {"quick": dict(rand=12), "thorough": dict(rand=800)}
 FORCED = ["02", "03", "97", "98"]
 
 
